@@ -429,6 +429,41 @@ fn explore(ctx: &Ctx, rep: &mut Report) {
             }
         }
     }
+    // Scale family: one long field (its end several 64-byte index words after its start) in every position of a
+    // small table. Field access finds "the next marker after here"; how far ahead that marker lies (0, 1, 2, 3, 4,
+    // 5 ... words) is a dimension the short windows never vary.
+    let lens: Vec<usize> = if ctx.quick() {
+        vec![1, 62, 63, 64, 65, 127, 128, 129, 191, 192, 193, 200, 255, 256, 257, 300, 319, 320, 321, 400, 513, 700, 1025]
+    } else {
+        (1..=340).chain([400, 511, 512, 513, 640, 700, 1000, 1024, 1025, 2048, 4097]).collect()
+    };
+    for c in &CFGS {
+        let cname = format!("{:02x}-{:02x}-{:02x}", c.delimiter, c.quote, c.newline);
+        let fam = format!("long-fields/{cname}");
+        let (a, b, d, q, n) = (c.other(b'a'), c.other(b'b'), c.delimiter, c.quote, c.newline);
+        let r = par_range_in(ctx, &fam, lens.len() as u64, 1, |i, rep| {
+            let l = lens[i as usize];
+            let f: Vec<u8> = vec![a; l];
+            let cat = |parts: &[&[u8]]| -> Vec<u8> { parts.iter().flat_map(|p| p.iter().copied()).collect() };
+            let texts = [
+                cat(&[&f]),
+                cat(&[&f, &[n]]),
+                cat(&[&f, &[d, b]]),
+                cat(&[&[b, d], &f]),
+                cat(&[&[b, d], &f, &[d, b, n, b, d, b]]),
+                cat(&[&[b, d], &f, &[n], &f, &[d, b, n]]),
+                cat(&[&[q], &f, &[q, d, b, n]]),
+                cat(&[&[b, d, q], &f, &[d], &f, &[q, d, b, n, b]]),
+                cat(&[&[b, n, b, n], &f, &[d], &f, &[d, d, n, b]]),
+                cat(&[&f, &[d], &f, &[d], &f, &[n], &f]),
+            ];
+            for t in &texts {
+                check_text(&fam, t, c, rep);
+            }
+        });
+        rep.merge(r);
+        rep.mark_exhaustive(&fam, &format!("a field of every length in {} lengths (quick: boundaries of 64..1025; thorough: 1..=340 and larger) in 10 table shapes (alone, first, middle, last, quoted, repeated)", lens.len()));
+    }
     rep.extra.insert("configurations".into(), json!(CFGS.iter().map(|c| c.to_json()).collect::<Vec<_>>()));
     rep.extra.insert("alphabets".into(), json!({"adqn": format!("other,delimiter,quote,separator up to length {len4}"), "abdqn": format!("two others + specials up to length {len5}")}));
     rep.extra.insert("cursor_ops".into(), json!("next_field, next_row, goto_row(n) for n in 0..=separators+2 and usize::MAX"));
